@@ -422,6 +422,9 @@ pub enum Op {
     CeFrom(u64),
     /// Accept every held Incoming of the server and stop holding
     AcceptHeld,
+    /// An attacker's copy of the next datagram the client emits reaches the server from the given
+    /// (never answering) address just ahead of the original: the server starts validating that path
+    SpoofedCopy(std::net::SocketAddr),
     /// A short-header datagram of the given length for a connection ID nobody has, from a foreign
     /// address, reaches the node's endpoint (it answers with a stateless reset if long enough)
     Unroutable(usize, usize),
@@ -452,6 +455,23 @@ pub fn apply_op(p: &mut StdPair, op: &Op) {
         }
         Op::MaxDatagrams(n) => {
             p.w.max_datagrams = *n;
+            return;
+        }
+        Op::SpoofedCopy(fake) => {
+            use crate::sim::Rec;
+            let before = p.w.recs.len();
+            apply_op(p, &Op::Ping(CLIENT));
+            let copy = p.w.recs[before..].iter().find_map(|r| match r {
+                Rec::Emit { node, data, idx, .. } if *node == CLIENT => Some((data.clone(), *idx)),
+                _ => None,
+            });
+            if let Some((data, idx)) = copy {
+                let at_orig = p.w.net.iter().find(|f| f.idx == idx).map(|f| f.at);
+                let lat = p.w.latency;
+                let saddr = p.w.nodes[SERVER].addr;
+                let after = lat.saturating_sub(Duration::from_micros(500)).max(Duration::from_micros(1)).min(at_orig.map_or(lat, |x| x.saturating_sub(p.w.t)));
+                p.w.inject(*fake, saddr, data, after);
+            }
             return;
         }
         Op::Unroutable(n, len) => {
